@@ -4,13 +4,18 @@ package main
 // Every scenario = one generated encryptor config + one fake database + up to three sessions through
 // the REAL in-process PostgreSQL proxy (vh.PgRig).  Oracle classes: "plaintext-to-db",
 // "uncovered-changed", "read-back", "non-owner-plaintext" (+ "short-values-row" for the known shape).
+// Extended-protocol writes are generated over a table of placeholder numbering schemes x Bind format modes
+// (see "placeholder numbering" below); statement 2 of every writer session walks that table systematically.
 
 import (
 	"bytes"
 	"encoding/base64"
+	"encoding/binary"
 	"encoding/hex"
 	"fmt"
 	"os"
+	"sort"
+	"strconv"
 	"strings"
 
 	"acra-vh/vh"
@@ -86,7 +91,17 @@ type c04Scenario struct {
 // round (C11 owns masking) - enable with VERIF_C04_MASKED=1 to reproduce.
 var withMasked = os.Getenv("VERIF_C04_MASKED") != ""
 
-func genTables(r *vh.Rng, rep *vh.Report) []*c04Table {
+// KNOWN FINDING (known_findings.json, class "placeholder-shared-by-two-columns"): one placeholder assigned to
+// two DIFFERENT configured columns (`UPDATE t SET c1 = $1, c2 = $1`, `INSERT INTO t (id, c1, c2) VALUES (1, $1, $1)`).
+// The encryptor documents that it cannot process it ("placeholders must map to columns uniquely"), OnBind
+// answers ErrInconsistentPlaceholder and handleBindPacket forwards the Bind packet as it is (fail-open): the
+// plaintext parameter reaches the database.  Generated deterministically in a few scenarios of every run
+// (c04TwoColsScenario); such scenarios are oracle-only (the model has no placeholders).
+const c04ClassTwoCols = "placeholder-shared-by-two-columns"
+
+func c04TwoColsScenario(scn int) bool { return scn%20 == 14 || scn%20 == 15 }
+
+func genTables(r *vh.Rng, rep *vh.Report, minProt int) []*c04Table {
 	t := &c04Table{name: "t" + fmt.Sprint(r.Intn(3)), configured: true}
 	t.cols = append(t.cols, c04Col{name: "id", kind: "id", oid: vh.OidInt4})
 	n := 2 + r.Intn(3)
@@ -106,6 +121,9 @@ func genTables(r *vh.Rng, rep *vh.Report) []*c04Table {
 			c.kind = "mask"
 		}
 		if i == n-1 && !hasProt && !c.protected() {
+			c.kind, c.oid = "ab", vh.OidBytea
+		}
+		if i >= n-minProt && !c.protected() { // the last minProt columns are protected
 			c.kind, c.oid = "ab", vh.OidBytea
 		}
 		if c.protected() {
@@ -320,6 +338,12 @@ type c04Stmt struct {
 	wCells []*c04Cell
 	nLit   int  // literal (non-id) values; together with params: the "bind-with-literals" shape
 	short  bool // schema-ordered VALUES with fewer values than the table has columns
+	// extended protocol: parameter positions in order of appearance, numbered by c04Number at the end
+	slots    []c04Slot
+	nTargets int   // UPDATE: SET assignments
+	tupleEnd []int // INSERT: values up to and including each VALUES tuple
+	twoCols  bool  // one placeholder is the value of two different columns (known finding shape)
+	note     string
 	// result shape
 	items   []string     // result column source names ("*" expanded)
 	rowIDs  []int        // expected rows (select by id / returning), nil = all rows in insertion order
@@ -392,31 +416,333 @@ func genItems(r *vh.Rng, rep *vh.Report, t *c04Table) (sqlList string, items []s
 	return strings.Join(parts, ", "), items
 }
 
-func (sc *c04Scenario) genWrite(r *vh.Rng, rep *vh.Report, t *c04Table, writer string) *c04Stmt {
-	st := &c04Stmt{table: t, extended: r.Intn(3) == 0}
-	addVal := func(id int, c c04Col, sb *strings.Builder) (coqVal string) {
+// ---------- placeholder numbering of extended-protocol writes ----------
+//
+// The statement text is built with one token per bound-parameter position (a "slot"); when the whole
+// statement (VALUES / SET, WHERE, RETURNING) exists, c04Number decides which $n every slot becomes and
+// how the Bind message carries the values.  Numbering schemes (c04Numberings):
+//   appearance      $1.. in order of appearance (what drivers emit by default)
+//   where-first     WHERE parameter(s) numbered BEFORE the SET / VALUES ones (without a WHERE parameter: the
+//                   last slot is $1): `UPDATE t SET c = $2 WHERE id = $1`
+//   reversed        last slot is $1
+//   shuffled        random permutation
+//   gap-leading     $1 bound but not used by the statement (every placeholder number is shifted by one)
+//   gap-inner       one number in the middle bound but unused (non-contiguous use)
+//   extra-trailing  more bound parameters than placeholders
+//   column-major    multi-row VALUES numbered column by column: ($1, $3), ($2, $4)
+//   shuffled-extra  shuffled + trailing unused parameters
+// independently: a multi-row INSERT may use ONE placeholder for the same column in every row (a placeholder
+// used twice), the row id / WHERE id may be a parameter, parameters are mixed with literals in every
+// position, RETURNING follows, and the Bind format codes are per-parameter / absent / one code for all
+// (text) / one code for all (binary).
+
+type c04Slot struct {
+	val      []byte
+	oid      uint32
+	role     string // val | set | where
+	row, col int    // VALUES position
+}
+
+var c04Numberings = []string{"appearance", "where-first", "reversed", "shuffled", "gap-leading", "gap-inner",
+	"extra-trailing", "column-major", "shuffled-extra"}
+var c04ParamFormats = []string{"per-param", "none", "all-text", "all-binary"}
+
+// c04Shape: the structural choices of one write; nil = all random.
+type c04Shape struct {
+	kind      string // "" random | insert | update
+	numbering string
+	pformat   string
+	allParams bool // every value is a parameter (else parameters and literals mixed at random)
+	idParam   bool // the row id (VALUES) / WHERE id is a parameter too
+	needProt  bool // UPDATE: at least one protected column is assigned
+	multiRow  bool // INSERT: several VALUES tuples
+	shareCol  bool // multi-row INSERT: one placeholder for the same column of every row
+	returning bool
+	twoCols   bool // one placeholder for two different protected columns (known finding shape)
+}
+
+// c04TwoColsShape: the known-finding statement of scenario scn (UPDATE on even, INSERT on odd scenarios;
+// the Bind format modes alternate).
+func c04TwoColsShape(scn int) *c04Shape {
+	sh := &c04Shape{kind: "update", twoCols: true, allParams: true, numbering: "appearance"}
+	if scn%2 == 1 {
+		sh.kind = "insert"
+	}
+	sh.pformat = c04ParamFormats[(scn/20+scn)%len(c04ParamFormats)]
+	sh.idParam = (scn/20)%2 == 1
+	sh.returning = (scn/20)%3 == 2
+	return sh
+}
+
+// c04ForcedShape: the structured opening of scenario scn - every numbering scheme x parameter format x
+// statement kind occurs in the quick tier whatever the seed.
+func c04ForcedShape(scn int) *c04Shape {
+	idx := scn / 2
+	sh := &c04Shape{kind: "update", needProt: true}
+	if scn%2 == 1 {
+		sh.kind = "insert"
+	}
+	sh.numbering = c04Numberings[idx%len(c04Numberings)]
+	sh.pformat = c04ParamFormats[(idx+idx/len(c04Numberings))%len(c04ParamFormats)]
+	sh.allParams = idx%3 != 0
+	sh.idParam = idx%2 == 0
+	sh.multiRow = sh.numbering == "column-major" || idx%4 == 1
+	sh.shareCol = sh.multiRow && idx%8 == 5
+	sh.returning = idx%5 == 2
+	return sh
+}
+
+// c04TwoProtected: two different protected columns of t in schema order (genTables guarantees them for
+// the scenarios of c04TwoColsScenario).
+func c04TwoProtected(r *vh.Rng, t *c04Table) []c04Col {
+	var prot []c04Col
+	for _, c := range t.cols[1:] {
+		if c.protected() {
+			prot = append(prot, c)
+		}
+	}
+	if len(prot) <= 2 {
+		return prot
+	}
+	i := r.Intn(len(prot) - 1)
+	j := i + 1 + r.Intn(len(prot)-1-i)
+	return []c04Col{prot[i], prot[j]}
+}
+
+func c04Token(k int) string { return "\x00" + strconv.Itoa(k) + "\x00" }
+
+// c04RenderParam renders the value of a slot as a bound parameter under the Bind format mode.
+func c04RenderParam(r *vh.Rng, rep *vh.Report, s c04Slot, mode string) ([]byte, int16) {
+	bin := mode == "all-binary"
+	if mode == "per-param" {
+		switch s.oid {
+		case vh.OidBytea:
+			return param(r, rep, s.val, s.oid)
+		default:
+			bin = r.Intn(4) == 0
+		}
+	}
+	var f int16
+	if bin {
+		f = 1
+	}
+	switch s.oid {
+	case vh.OidInt4:
+		if bin {
+			n, _ := strconv.Atoi(string(s.val))
+			b := make([]byte, 4)
+			binary.BigEndian.PutUint32(b, uint32(int32(n)))
+			rep.Count("param:int4-binary")
+			return b, f
+		}
+		return s.val, f
+	case vh.OidBytea:
+		if bin {
+			rep.Count("param:binary")
+			return s.val, f
+		}
+		if isPlainPrintable(s.val) && r.Bool() {
+			rep.Count("param:text-plain")
+			return s.val, f
+		}
+		rep.Count("param:text-hex")
+		return []byte(`\x` + hex.EncodeToString(s.val)), f
+	}
+	return s.val, f // text: both formats carry the bytes
+}
+
+// c04Number numbers the slots of st, fills st.params / st.pfmt and returns the final statement text.
+func c04Number(r *vh.Rng, rep *vh.Report, st *c04Stmt, sh *c04Shape, sql string) string {
+	k := len(st.slots)
+	if k == 0 {
+		return sql
+	}
+	scheme := sh.numbering
+	order := make([]int, k) // order[j]: the slot that gets the (j+1)-th number
+	for i := range order {
+		order[i] = i
+	}
+	reverse := func() {
+		for i, j := 0, k-1; i < j; i, j = i+1, j-1 {
+			order[i], order[j] = order[j], order[i]
+		}
+	}
+	switch scheme {
+	case "where-first":
+		hasWhere := false
+		for _, s := range st.slots {
+			hasWhere = hasWhere || s.role == "where"
+		}
+		if hasWhere {
+			sort.SliceStable(order, func(a, b int) bool {
+				return st.slots[order[a]].role == "where" && st.slots[order[b]].role != "where"
+			})
+		} else {
+			order = append([]int{k - 1}, order[:k-1]...)
+		}
+	case "reversed":
+		reverse()
+	case "shuffled", "shuffled-extra":
+		for i := k - 1; i > 0; i-- {
+			j := r.Intn(i + 1)
+			order[i], order[j] = order[j], order[i]
+		}
+	case "column-major":
+		multi := false
+		for _, s := range st.slots {
+			multi = multi || s.row > 0
+		}
+		if multi {
+			sort.SliceStable(order, func(a, b int) bool {
+				sa, sb := st.slots[order[a]], st.slots[order[b]]
+				if sa.col != sb.col {
+					return sa.col < sb.col
+				}
+				return sa.row < sb.row
+			})
+		} else {
+			scheme = "reversed"
+			reverse()
+		}
+	}
+	gapAt, extra := 0, 0
+	switch scheme {
+	case "gap-leading":
+		gapAt = 1
+	case "gap-inner":
+		gapAt = 1 + r.Intn(k)
+		if k > 1 && gapAt == 1 {
+			gapAt = 2
+		}
+	case "extra-trailing", "shuffled-extra":
+		extra = 1 + r.Intn(2)
+	}
+	num := make([]int, k)
+	n := 0
+	for _, si := range order {
+		n++
+		if n == gapAt {
+			n++
+		}
+		num[si] = n
+	}
+	total := n + extra
+	st.params = make([][]byte, total)
+	fmts := make([]int16, total)
+	for j := range st.params { // bound but unused parameters
+		if r.Bool() {
+			st.params[j] = []byte("unused")
+		}
+	}
+	for si, s := range st.slots {
+		p, f := c04RenderParam(r, rep, s, sh.pformat)
+		st.params[num[si]-1], fmts[num[si]-1] = p, f
+		sql = strings.ReplaceAll(sql, c04Token(si), "$"+strconv.Itoa(num[si]))
+	}
+	switch sh.pformat {
+	case "none":
+		st.pfmt = nil
+	case "all-text":
+		st.pfmt = []int16{0}
+	case "all-binary":
+		st.pfmt = []int16{1}
+	default:
+		st.pfmt = fmts
+	}
+	rep.Count("numbering:" + scheme)
+	rep.Count("param-format:" + sh.pformat)
+	// the boundary the implementation validates placeholder numbers against
+	if st.kind == "update" {
+		for si, s := range st.slots {
+			if s.role == "set" && num[si] > st.nTargets {
+				rep.Count("numbering:update-set-number>set-count")
+				break
+			}
+		}
+	} else {
+		for si, s := range st.slots {
+			if s.role == "val" && s.col >= 0 && num[si] > st.tupleEnd[s.row] {
+				rep.Count("numbering:insert-number>values-so-far")
+				break
+			}
+		}
+	}
+	if total > k {
+		rep.Count("numbering:unused-parameters")
+	}
+	return sql
+}
+
+func (sc *c04Scenario) genWrite(r *vh.Rng, rep *vh.Report, t *c04Table, writer string, sh *c04Shape) *c04Stmt {
+	st := &c04Stmt{table: t}
+	if sh == nil {
+		sh = &c04Shape{}
+		st.extended = r.Intn(3) == 0
+		if st.extended {
+			sh.numbering, sh.pformat = c04Numberings[0], c04ParamFormats[0]
+			if r.Bool() {
+				sh.numbering = c04Numberings[r.Intn(len(c04Numberings))]
+			}
+			if r.Bool() {
+				sh.pformat = c04ParamFormats[r.Intn(len(c04ParamFormats))]
+			}
+			sh.allParams = r.Intn(4) == 0
+			sh.idParam = r.Intn(3) == 0
+		}
+		sh.multiRow = r.Intn(4) == 0
+		sh.shareCol = st.extended && r.Intn(3) == 0
+		sh.returning = r.Intn(4) == 0
+	} else {
+		st.extended = true
+		rep.Count("stmt:structured-numbering-opening")
+	}
+	shareCol := "" // multi-row INSERT: the column whose rows all use the placeholder of row 0
+	shareSlot, shareIdx := -1, -1
+	forceShare := false
+	addVal := func(id int, c c04Col, sb *strings.Builder, role string, row, col int) (coqVal string) {
 		var v, m []byte
-		if c.kind == "id" {
+		shared := (forceShare || (row > 0 && c.name == shareCol)) && shareSlot >= 0
+		if shared {
+			v, m = st.wVals[shareIdx], st.wMarks[shareIdx]
+		} else if c.kind == "id" {
 			v = []byte(fmt.Sprint(id))
-		} else if r.Intn(12) == 0 && c.oid == vh.OidBytea {
+		} else if !sh.twoCols && r.Intn(12) == 0 && c.oid == vh.OidBytea {
 			v = []byte{}
 			rep.Count("value:empty")
 		} else {
 			v, m = c04GenValue(r, rep, c.oid == vh.OidText)
 		}
+		if shared && forceShare {
+			st.twoCols = true
+			rep.Count("numbering:placeholder-for-two-columns(known finding shape)")
+		}
 		st.wIDs, st.wCols, st.wVals, st.wMarks = append(st.wIDs, id), append(st.wCols, c.name), append(st.wVals, v), append(st.wMarks, m)
-		if st.extended && c.kind != "id" && r.Intn(4) != 0 {
-			p, f := param(r, rep, v, c.oid)
-			st.params, st.pfmt = append(st.params, p), append(st.pfmt, f)
-			fmt.Fprintf(sb, "$%d", len(st.params))
-		} else {
+		asParam := st.extended && (sh.allParams || r.Intn(4) != 0)
+		if c.kind == "id" {
+			asParam = st.extended && sh.idParam
+		}
+		switch {
+		case shared:
+			sb.WriteString(c04Token(shareSlot))
+			rep.Count("numbering:placeholder-used-twice")
+		case asParam:
+			st.slots = append(st.slots, c04Slot{val: v, oid: c.oid, role: role, row: row, col: col})
+			sb.WriteString(c04Token(len(st.slots) - 1))
+			if row == 0 && c.name == shareCol {
+				shareSlot, shareIdx = len(st.slots)-1, len(st.wVals)-1
+			}
+		default:
 			st.nLit++
 			sb.WriteString(literal(r, rep, v, c.oid))
 		}
 		return vh.H(v)
 	}
 	var sb strings.Builder
-	if len(sc.ref[t.name]) > 0 && r.Intn(3) == 0 {
+	update := len(sc.ref[t.name]) > 0 && r.Intn(3) == 0
+	if sh.kind != "" {
+		update = sh.kind == "update" && len(sc.ref[t.name]) > 0
+	}
+	if update {
 		// UPDATE ... SET ... WHERE id = k
 		st.kind = "update"
 		ids := sc.ids(t.name)
@@ -424,21 +750,57 @@ func (sc *c04Scenario) genWrite(r *vh.Rng, rep *vh.Report, t *c04Table, writer s
 		st.whereID = id
 		sb.WriteString("UPDATE " + t.name + " SET ")
 		var sets []string
-		first := true
+		var chosen []c04Col
 		for _, c := range t.cols[1:] {
-			if r.Intn(2) == 0 && !(first && c.name == t.cols[len(t.cols)-1].name) {
+			if r.Intn(2) == 0 && !(len(chosen) == 0 && c.name == t.cols[len(t.cols)-1].name) {
 				continue
 			}
-			if !first {
+			chosen = append(chosen, c)
+		}
+		if sh.twoCols {
+			chosen = c04TwoProtected(r, t)
+		}
+		if sh.needProt {
+			has := false
+			for _, c := range chosen {
+				has = has || c.protected()
+			}
+			if !has {
+				var prot []c04Col
+				for _, c := range t.cols[1:] {
+					if c.protected() {
+						prot = append(prot, c)
+					}
+				}
+				if len(prot) > 0 { // keep the schema order of the SET list
+					p := prot[r.Intn(len(prot))]
+					chosen = append(chosen, p)
+					sort.SliceStable(chosen, func(a, b int) bool { return chosen[a].name < chosen[b].name })
+				}
+			}
+		}
+		st.nTargets = len(chosen)
+		for i, c := range chosen {
+			if i > 0 {
 				sb.WriteString(", ")
 			}
-			first = false
 			sb.WriteString(c.name + " = ")
-			cv := addVal(id, c, &sb)
+			nsl := len(st.slots)
+			cv := addVal(id, c, &sb, "set", 0, -1)
+			forceShare = false
+			if sh.twoCols && i == 0 && len(st.slots) > nsl && len(chosen) > 1 {
+				shareSlot, shareIdx, forceShare = nsl, len(st.wVals)-1, true // SET c1 = $k, c2 = $k
+			}
 			sets = append(sets, "("+coqBytes(c.name)+", "+cv+")")
 		}
-		sb.WriteString(fmt.Sprintf(" WHERE id = %d", id))
-		ret := sc.genReturning(r, rep, t, st, &sb, []int{id})
+		if st.extended && (sh.idParam || sh.numbering == "where-first") {
+			st.slots = append(st.slots, c04Slot{val: []byte(fmt.Sprint(id)), oid: vh.OidInt4, role: "where", col: -1})
+			sb.WriteString(" WHERE id = " + c04Token(len(st.slots)-1))
+			rep.Count("stmt:update-where-parameter")
+		} else {
+			sb.WriteString(fmt.Sprintf(" WHERE id = %d", id))
+		}
+		ret := sc.genReturning(r, rep, t, st, &sb, []int{id}, sh.returning)
 		st.coq = fmt.Sprintf("(Update %s [%s] (Some (%s, %s)) %s)", coqBytes(t.name), strings.Join(sets, "; "), coqBytes("id"), coqBytes(fmt.Sprint(id)), ret)
 		rep.Count("stmt:update")
 	} else {
@@ -448,6 +810,16 @@ func (sc *c04Scenario) genWrite(r *vh.Rng, rep *vh.Report, t *c04Table, writer s
 		coqCols := "None"
 		sb.WriteString("INSERT INTO " + t.name)
 		switch {
+		case sh.twoCols: // (id, c1, c2) VALUES (.., $k, $k)
+			cols = append([]c04Col{t.cols[0]}, c04TwoProtected(r, t)...)
+			var names, cn []string
+			for _, c := range cols {
+				names = append(names, c.name)
+				cn = append(cn, coqBytes(c.name))
+			}
+			sb.WriteString(" (" + strings.Join(names, ", ") + ")")
+			coqCols = "(Some [" + strings.Join(cn, "; ") + "])"
+			rep.Count("stmt:insert-collist")
 		case shape < 5: // explicit column list, random subset/order
 			var sel []c04Col
 			sel = append(sel, t.cols[0])
@@ -478,9 +850,15 @@ func (sc *c04Scenario) genWrite(r *vh.Rng, rep *vh.Report, t *c04Table, writer s
 			rep.Count("stmt:insert-schema-order")
 		}
 		nrows := 1
-		if r.Intn(4) == 0 {
+		if sh.multiRow && !sh.twoCols {
 			nrows = 2 + r.Intn(2)
 			rep.Count("stmt:insert-multirow")
+			if sh.shareCol && len(cols) > 1 {
+				shareCol = cols[1+r.Intn(len(cols)-1)].name
+				if shareCol == "id" {
+					shareCol = ""
+				}
+			}
 		}
 		sb.WriteString(" VALUES ")
 		var rowsCoq []string
@@ -498,17 +876,27 @@ func (sc *c04Scenario) genWrite(r *vh.Rng, rep *vh.Report, t *c04Table, writer s
 				if j > 0 {
 					sb.WriteString(", ")
 				}
-				vals = append(vals, addVal(id, c, &sb))
+				nsl := len(st.slots)
+				vals = append(vals, addVal(id, c, &sb, "val", i, j))
+				forceShare = false
+				if sh.twoCols && j == 1 && len(st.slots) > nsl && len(cols) > 2 {
+					shareSlot, shareIdx, forceShare = nsl, len(st.wVals)-1, true
+				}
 			}
 			sb.WriteString(")")
+			st.tupleEnd = append(st.tupleEnd, (i+1)*len(cols))
 			rowsCoq = append(rowsCoq, "["+strings.Join(vals, "; ")+"]")
 		}
-		ret := sc.genReturning(r, rep, t, st, &sb, ids)
+		ret := sc.genReturning(r, rep, t, st, &sb, ids, sh.returning)
 		st.coq = fmt.Sprintf("(Insert %s %s [%s] %s)", coqBytes(t.name), coqCols, strings.Join(rowsCoq, "; "), ret)
 	}
 	st.sql = sb.String()
 	if st.extended {
+		st.sql = c04Number(r, rep, st, sh, st.sql)
 		rep.Count("protocol:extended")
+		if len(st.params) > 0 && len(st.items) > 0 {
+			rep.Count("stmt:returning-with-parameters")
+		}
 		if r.Bool() {
 			st.rfmt = []int16{1}
 			rep.Count("result-format:binary")
@@ -519,8 +907,8 @@ func (sc *c04Scenario) genWrite(r *vh.Rng, rep *vh.Report, t *c04Table, writer s
 	return st
 }
 
-func (sc *c04Scenario) genReturning(r *vh.Rng, rep *vh.Report, t *c04Table, st *c04Stmt, sb *strings.Builder, ids []int) string {
-	if r.Intn(4) != 0 {
+func (sc *c04Scenario) genReturning(r *vh.Rng, rep *vh.Report, t *c04Table, st *c04Stmt, sb *strings.Builder, ids []int, want bool) string {
+	if !want {
 		return "[]"
 	}
 	rep.Count("stmt:returning")
@@ -666,7 +1054,12 @@ func runC04(rep *vh.Report, r *vh.Rng, n int, thorough bool) {
 	sessions, hung := 0, 0
 	for scn := 0; scn < n; scn++ {
 		sc := &c04Scenario{id: scn, ref: map[string]map[int]map[string]*c04Cell{}}
-		sc.tables = genTables(r, rep)
+		twoCols := c04TwoColsScenario(scn)
+		minProt := 0
+		if twoCols {
+			minProt = 2
+		}
+		sc.tables = genTables(r, rep, minProt)
 		sc.yaml = genYAML(sc.tables)
 		sc.ks = vh.NewMemKeystore()
 		for _, id := range []string{connWriter, connOwnerB, connOther} {
@@ -685,7 +1078,10 @@ func runC04(rep *vh.Report, r *vh.Rng, n int, thorough bool) {
 			db.Tables[t.name] = pt
 			sc.ref[t.name] = map[int]map[string]*c04Cell{}
 		}
-		if modelled {
+		if twoCols {
+			modelled = false
+			rep.Count("scenario:oracle-only(known finding shape)")
+		} else if modelled {
 			rep.Count("scenario:modelled")
 		} else {
 			rep.Count("scenario:oracle-only(searchable/masked)")
@@ -705,13 +1101,22 @@ func runC04(rep *vh.Report, r *vh.Rng, n int, thorough bool) {
 		var plan []func() *c04Stmt
 		for i := 0; i < nst; i++ {
 			t := sc.tables[0]
-			if r.Intn(4) == 0 {
+			if r.Intn(4) == 0 && i > 0 {
 				t = sc.tables[1]
+			}
+			if i == 1 {
+				// structured opening: the placeholder numbering / parameter format table, on the configured table
+				forced := c04ForcedShape(scn)
+				plan = append(plan, func() *c04Stmt { return sc.genWrite(r, rep, sc.tables[0], connWriter, forced) })
+				if twoCols {
+					known := c04TwoColsShape(scn)
+					plan = append(plan, func() *c04Stmt { return sc.genWrite(r, rep, sc.tables[0], connWriter, known) })
+				}
 			}
 			switch k := r.Intn(10); {
 			case k < 5 || i == 0:
 				tt := t
-				plan = append(plan, func() *c04Stmt { return sc.genWrite(r, rep, tt, connWriter) })
+				plan = append(plan, func() *c04Stmt { return sc.genWrite(r, rep, tt, connWriter, nil) })
 			case k < 9:
 				tt := t
 				plan = append(plan, func() *c04Stmt { return sc.genSelect(r, rep, tt) })
@@ -1048,6 +1453,8 @@ func (sc *c04Scenario) runSession(rep *vh.Report, r *vh.Rng, rig *vh.PgRig, conn
 
 func (st *c04Stmt) leakClass() string {
 	switch {
+	case st.twoCols:
+		return c04ClassTwoCols
 	case st.short && len(st.params) == 0:
 		return "short-values-row"
 	case len(st.params) > 0 && st.nLit > 0:
@@ -1068,6 +1475,10 @@ func (sc *c04Scenario) table(name string) *c04Table {
 func hexList(bs [][]byte) string {
 	var p []string
 	for _, b := range bs {
+		if b == nil {
+			p = append(p, "NULL")
+			continue
+		}
 		p = append(p, hex.EncodeToString(b))
 	}
 	return "[" + strings.Join(p, ",") + "]"
